@@ -84,6 +84,9 @@ def stress_histories():
 
 
 DEPENDENT_GROUPS = [
+    ["m.mp.ip.precursor_matrix_block(2,h,h,i,j)", "m.mp.ip.isr_matrix_block(2,h,h,i,j)",
+     "m.mp.ip.mvp_block_order(1,h,h,h,i)"],
+    ["m.mp.ea.isr_matrix_block(2,p,p,a,b)", "m.mp.ea.precursor_matrix_block(2,p,p,a,b)"],
     ["expr.factor_intermediates(p0_2_mix,types=[t_amplitude,mp_density])",
      "expr.factor_intermediates(p0_2_mix,types=t_amplitude)",
      "expr.factor_intermediates(p0_2_mix,types=mp_density)"],
